@@ -44,6 +44,8 @@ structure Out where
   resp  : String
   /-- subscriptions whose waiters were woken -/
   wakes : List Id := []
+  /-- pull responses: (delivery id, attempt number) in response order -/
+  delivered : List (Id × Nat) := []
 deriving Repr, DecidableEq, Inhabited
 
 def Out.isOk (o : Out) : Bool := o.resp.startsWith "ok"
@@ -69,7 +71,8 @@ def step (st : St) : Op → St × Out
     | .error e => (st, { resp := "E:" ++ e.cls })
   | .pull s mx mb strict wait obs =>
     match pull st.db st.now s mx mb strict wait obs with
-    | .ok (o, now') => ({ db := o.db, now := now' }, { resp := showPull o.val, wakes := o.wakes })
+    | .ok (o, now') =>
+      ({ db := o.db, now := now' }, { resp := showPull o.val, wakes := o.wakes, delivered := o.val.delivered })
     | .error e => (st, { resp := "E:" ++ e.cls })
   | .ack ids => finish st (ack st.db st.now ids) fun k => s!"ok:{k}"
   | .nack ids ds fw => finish st (nack st.db st.now ids ds fw) fun (a, b) => s!"ok:{a},{b}"
@@ -89,5 +92,19 @@ def step (st : St) : Op → St × Out
   | .pruneDeletedTopics a mx v => finish st (pruneDeletedTopics st.db st.now a mx v) fun k => s!"ok:{k}"
 
 def run (st : St) (ops : List Op) : St := ops.foldl (fun s o => (step s o).1) st
+
+/-- the outputs of a run, in order -/
+def outs : St → List Op → List Out
+  | _, [] => []
+  | st, op :: r => (step st op).2 :: outs (step st op).1 r
+
+/-- operations that neither rewind a subscription nor delete delivery rows -/
+def Op.delsMonotone : Op → Bool
+  | .seekTime .. => false
+  | .seekSnap .. => false
+  | .pruneCompletedDeliveries .. => false
+  | .pruneExpiredDeliveries .. => false
+  | .pruneDeletedSubDeliveries .. => false
+  | _ => true
 
 end Mmmbbb
